@@ -9,7 +9,8 @@ From PTK Require Import Lib.Sx Lib.Py Lib.C19_Str Gen.C19_Palette
      Model.C19_FromDict Model.C19_Transform Model.C19_Cache
      Proofs.C19_FromDictFacts Proofs.C19_TransformFacts Proofs.C19_CacheFacts
      Model.C19_Merged Proofs.C19_MergedFacts Model.C19_Memoized Proofs.C19_MemoizedFacts
-     Model.C19_Xterm Proofs.C19_XtermFacts Proofs.C19_EncodeFacts.
+     Model.C19_Xterm Proofs.C19_XtermFacts Proofs.C19_EncodeFacts
+     Proofs.C19_NoinheritFacts Proofs.C19_Vt100Facts.
 Import ListNotations.
 Open Scope Z_scope.
 
@@ -235,7 +236,7 @@ Print Assumptions C19_from_dict_last_wins.
    kernel_ok = "returns six hexadecimal digits" (checked on the real code by
    the harness). *)
 
-Theorem C19_transform_in_domain : forall opp adj, kernel_ok opp -> kernel_ok adj ->
+Theorem C19_transform_in_domain : forall opp adj, kernel_ok opp -> (forall mn mx, kernel_ok (adj mn mx)) ->
   forall t a a', rt_dom a -> transform opp adj t a = Ok a' -> rt_dom a'.
 Proof. exact transform_in_domain. Qed.
 Print Assumptions C19_transform_in_domain.
@@ -249,7 +250,7 @@ Print Assumptions C19_transform_concrete.
    default colours, brightness, conditional, merged, dynamic) of resolved
    attributes. *)
 Theorem C19_sgr_roundtrip_transformed : forall opp adj rules s d a t a',
-  kernel_ok opp -> kernel_ok adj -> rt_dom d ->
+  kernel_ok opp -> (forall mn mx, kernel_ok (adj mn mx)) -> rt_dom d ->
   style_get rules s d = Ok a -> transform opp adj t a = Ok a' ->
   concrete a' /\ decode_seq (escape_code 24 a') = Ok (canon a').
 Proof. exact sgr_roundtrip_transformed. Qed.
@@ -258,7 +259,8 @@ Print Assumptions C19_sgr_roundtrip_transformed.
 (* Totality: with valid brightness bounds and parseable default colours no
    transformation fails on in-domain (e.g. resolved) attributes. *)
 Theorem C19_transform_total : forall opp adj,
-  kernel_ok opp -> kernel_total opp -> kernel_ok adj -> kernel_total adj ->
+  kernel_ok opp -> kernel_total_hex opp ->
+  (forall mn mx, kernel_ok (adj mn mx)) -> (forall mn mx, kernel_total (adj mn mx)) ->
   forall t a, well_formed t = true -> rt_dom a -> exists a', transform opp adj t a = Ok a'.
 Proof. exact transform_total. Qed.
 Print Assumptions C19_transform_total.
@@ -326,12 +328,12 @@ Print Assumptions C19_fresh_merged_is_concat.
    exceptions not stored) around get_opposite_color: after any history of
    SwapLightAndDark transformations every answer is the unmemoised one. *)
 Theorem C19_memoized_swap_transparent : forall opp l c, opp_inv opp c ->
-  swap_history opp c l = map (transform opp (fun _ => None) TSwap) l.
+  swap_history opp c l = map (transform opp (fun _ _ _ => None) TSwap) l.
 Proof. exact memoized_swap_transparent. Qed.
 Print Assumptions C19_memoized_swap_transparent.
 
 Theorem C19_memoized_swap_transparent_fresh : forall opp l,
-  swap_history opp [] l = map (transform opp (fun _ => None) TSwap) l.
+  swap_history opp [] l = map (transform opp (fun _ _ _ => None) TSwap) l.
 Proof. exact memoized_swap_transparent_fresh. Qed.
 Print Assumptions C19_memoized_swap_transparent_fresh.
 
@@ -453,3 +455,43 @@ Theorem C19_encode4_exclusion_witness :
                   colors_to_code 4 fs bs = [code_of false name; code_of true w_red]).
 Proof. exact encode4_exclusion_witness. Qed.
 Print Assumptions C19_encode4_exclusion_witness.
+
+(* ---- round 6 ------------------------------------------------------------ *)
+
+(* _parse_style_str: "noinherit" at ANY position of the rule string (words =
+   non-empty, blank-free strings, joined by single spaces): the other words
+   applied left to right to DEFAULT_ATTRS. *)
+Theorem C19_noinherit_any_position : forall ws1 ws2,
+  forallb word_ok ws1 = true -> forallb word_ok ws2 = true ->
+  parse_style_str (join [32] (ws1 ++ s_noinherit :: ws2)) = apply_parts (ws1 ++ ws2) DEFAULT_ATTRS.
+Proof. exact noinherit_any_position. Qed.
+Print Assumptions C19_noinherit_any_position.
+
+Theorem C19_noinherit_position_independent : forall ws1 ws2 ws1' ws2',
+  forallb word_ok ws1 = true -> forallb word_ok ws2 = true ->
+  forallb word_ok ws1' = true -> forallb word_ok ws2' = true ->
+  ws1 ++ ws2 = ws1' ++ ws2' ->
+  parse_style_str (join [32] (ws1 ++ s_noinherit :: ws2)) =
+  parse_style_str (join [32] (ws1' ++ s_noinherit :: ws2')).
+Proof. exact noinherit_position_independent. Qed.
+Print Assumptions C19_noinherit_position_independent.
+
+(* ONE Vt100_Output: the text set_attributes writes is a function of attrs and
+   depth only, whatever was emitted before. *)
+Theorem C19_vt100_history : forall calls : list (Z * attrs),
+  run_queries EMPTY_W (map call_query calls) = map (fun c => AStr (escape_code (fst c) (snd c))) calls.
+Proof. exact vt100_history. Qed.
+Print Assumptions C19_vt100_history.
+
+Theorem C19_vt100_after_any_history : forall pre depth a,
+  run_queries EMPTY_W (pre ++ [QEsc depth a]) = map pure_answer pre ++ [AStr (escape_code depth a)].
+Proof. exact vt100_after_any_history. Qed.
+Print Assumptions C19_vt100_after_any_history.
+
+(* The theorems about the float kernels on Coq's primitive binary64 floats
+   (C19_opposite_all_colours, C19_opposite_kernel_ok, C19_sgr_roundtrip_swap_real,
+   C19_transform_real_total, C19_adjust_kernel_ansi_partial) are stated in
+   Proofs/C19_FloatProps.v: they rest on vm_compute over the 2^24 colour cube,
+   which coqc's kernel checks with its VM in under a minute but coqchk (no VM)
+   would re-evaluate for about 40 minutes; harness/c19.py builds and gates that
+   file on every run. *)
